@@ -332,6 +332,30 @@ func (p *verifParser) expression(prec int) antlr.ParserRuleContext {
 	return left
 }
 
+// verifModelParseTree is what replaces the generated parser under gosym.
+func verifModelParseTree(text string) (*gen.ParseContext, error) {
+	toks, err := verifTokenize(text)
+	if err != nil {
+		return nil, err
+	}
+	for _, t := range toks {
+		if t.typ == verifTokError {
+			return nil, errVerifSyntax
+		}
+	}
+	p := &verifParser{toks: toks}
+	tree := p.expression(0)
+	if p.err == nil && p.peek() != verifEOF {
+		p.err = errVerifSyntax
+	}
+	if p.err != nil {
+		return nil, p.err
+	}
+	root := gen.NewParseContext(nil, nil, 0)
+	root.AddChild(tree)
+	return root, nil
+}
+
 // verifMigrateExpression is migrateExpression with the parser model in place
 // of the generated parser; everything after parsing is the real code.
 func verifMigrateExpression(env envs.Environment, expression string, options *MigrateOptions) (string, error) {
